@@ -98,3 +98,110 @@ class P:
 
 
 PROP = P()
+
+
+# ---------------------------------------------------------------------------------------------------------------
+# part 2: the lexer itself (lexer.Tokenize), which part 1 takes from the implementation
+from vlib import clist as _clist
+
+
+class LexP:
+    id = "C05"
+    name = "lexer"
+    driver = "Lex"
+    uses_tables = True
+    shard = 6
+    chunk = 20
+    rule = ("part `lexer`: query texts (grammar-derived queries in all three layouts, their single-character mutations -- delete / insert / replace over an alphabet of "
+            "operators, quotes, digits, unit letters, '#', '-', '.', '_', spaces and newlines -- and random strings over that alphabet) are tokenized by lexer.Tokenize and by "
+            "the Coq model of the lexer (Model/Lexer.v: text/scanner on a fragment, ScanUnit, keyword table and function look-ahead, comments, both string forms, parser flags); "
+            "token types and texts must agree, or both must reject. Texts outside the modelled fragment (exponents, hex / octal / binary / separated numbers, character literals, Go "
+            "comments, exotic escapes, compound quantities, non-ASCII) are counted as outside the model fragment. 30 texts per case.")
+    trusted = ["text/scanner, strutil.Unquote, humanize.ParseBytes and the two ParseDuration functions are modelled only on the fragment described in Model/Lexer.v"]
+    assumptions = []
+    ALPHA = list('{}()[]|=~!<>+-*/%^,."`#_ \n\t') + list("0159") + list("smhdwbkKMgGiy") + list("axe") + ["by", "rate", "sum", "ip", "or", "unwrap", "5m", "1.5", "0.5h", "10kb", "--x", "=~", "!=", "|=", ">=", "=="]
+
+    def gen(self, rng, tier):
+        n = {"quick": 20, "thorough": 200, "search": 60}[tier]
+        g = qgen.Gen(rng)
+        cases = []
+        for _ in range(n):
+            items = []
+            for j in range(30):
+                mode = rng.randrange(10)
+                if mode <= 3:
+                    ast = g.query()
+                    q = qgen.layout(rng, qgen.Renderer(rng, plain=rng.random() < 0.3).expr(ast), rng.choice(["tight", "spaced", "wild"]))
+                elif mode <= 7:
+                    ast = g.query()
+                    q = qgen.layout(rng, qgen.Renderer(rng, plain=True).expr(ast), rng.choice(["tight", "spaced"]))
+                    q = q if isinstance(q, str) else q.decode("utf-8", "replace")
+                    if q:
+                        i = rng.randrange(len(q) + 1)
+                        m = rng.randrange(3)
+                        if m == 0:
+                            q = q[:i] + q[i + 1:]
+                        elif m == 1:
+                            q = q[:i] + rng.choice(self.ALPHA) + q[i:]
+                        else:
+                            q = q[:i] + rng.choice(self.ALPHA) + q[i + 1:]
+                else:
+                    q = "".join(rng.choice(self.ALPHA) for _ in range(rng.randint(0, 10)))
+                items.append({"q": b64e(q if isinstance(q, bytes) else q.encode("utf-8", "surrogateescape"))})
+            cases.append({"kind": "lexer", "items": items})
+        self.nitems = sum(len(c["items"]) for c in cases)
+        return cases
+
+    def request(self, c):
+        return {"cmd": "tokenizemany", "inputs": [it["q"] for it in c["items"]]}
+
+    def to_coq(self, c, r):
+        outs = r.get("outputs")
+        if outs is None or len(outs) != len(c["items"]):
+            return None
+        its = []
+        for it, o in zip(c["items"], outs):
+            if "err" in o:
+                obs = "LObsErr"
+            else:
+                obs = "LObsOk %s" % _clist("(T%s,%s)" % (t["type"], cbytes(b64d(t["text"]))) for t in o["tokens"])
+            its.append("mkl %s (%s)" % (cbytes(b64d(it["q"])), obs))
+        return "mk %s" % _clist(its)
+
+    def model_exprs(self, term):
+        return ["map (fun c => lex (l_in c)) (items (%s))" % term, "map judge1 (items (%s))" % term]
+
+    def trivial(self, c, r):
+        return False
+
+    def sample(self, c, r):
+        outs = r.get("outputs") or []
+        return {"kind": "lexer", "inputs": [b64d(it["q"]).decode("utf-8", "replace")[:80] for it in c["items"][:4]],
+                "observed": [("error" if "err" in o else "%d tokens" % len(o["tokens"])) for o in outs[:4]]}
+
+    def distribution(self, cases, resps):
+        d = {"texts": 0, "accepted": 0, "rejected": 0, "tokens": 0}
+        for c, r in zip(cases, resps):
+            for it, o in zip(c["items"], r.get("outputs") or []):
+                d["texts"] += 1
+                d["rejected" if "err" in o else "accepted"] += 1
+                d["tokens"] += len(o.get("tokens") or [])
+        return d
+
+    def extra_coverage(self, tier):
+        return {"texts_tokenized": getattr(self, "nitems", 0)}
+
+    def shrink(self, c):
+        its = c["items"]
+        if len(its) > 1:
+            h = len(its) // 2
+            yield dict(c, items=its[:h])
+            yield dict(c, items=its[h:])
+        elif its:
+            q = b64d(its[0]["q"])
+            for i in range(len(q)):
+                yield dict(c, items=[{"q": b64e(q[:i] + q[i + 1:])}])
+
+
+P.name = "parser"
+PROP.parts = [PROP, LexP()]
